@@ -330,6 +330,9 @@ func (x *Exec) step1(in ssa.Instruction, st *State) {
 	case *ssa.MapUpdate:
 		x.mapUpdate(x.term(x.val(in.Map)), in.Map.Type().Underlying().(*types.Map), x.term(x.val(in.Key)), x.term(x.val(in.Value)), st)
 	case *ssa.MakeMap:
+		if in.Reserve != nil {
+			x.allocBound(x.term(x.val(in.Reserve)), st, "map size hint")
+		}
 		x.regs[in] = x.makeMap(in.Type().Underlying().(*types.Map), st)
 	case *ssa.MakeSlice:
 		x.regs[in] = x.makeSlice(in, st)
@@ -758,6 +761,7 @@ func (x *Exec) makeSlice(in *ssa.MakeSlice, st *State) Value {
 	et := in.Type().Underlying().(*types.Slice).Elem()
 	x.obl("safety[make-len]", "safety", "makeslice: len out of range", st, And(Ge(l, IntLit(0)), Le(l, IntLit(1<<50))))
 	x.obl("safety[make-cap]", "safety", "makeslice: cap out of range", st, And(Ge(c, l), Le(c, IntLit(1<<50))))
+	x.allocBound(c, st, "slice capacity")
 	base := x.newBase(st)
 	hn, hs := x.heapOf(et)
 	h := st.Heap(hn, hs)
@@ -1025,4 +1029,13 @@ func rangeWithin(flo, fhi, tlo, thi string) bool {
 		return c(s)
 	}
 	return constant.Compare(neg(flo), token.GEQ, neg(tlo)) && constant.Compare(neg(fhi), token.LEQ, neg(thi))
+}
+
+// allocBound: in functions that opt in (opt alloc-bound N: loaders of untrusted files), every
+// allocation size is an obligation: at most N elements, whatever the file says.
+func (x *Exec) allocBound(n Term, st *State, what string) {
+	if x.pure || x.fc == nil || x.fc.Opts["alloc-bound"] == "" {
+		return
+	}
+	x.obl("alloc[bounded]", "safety", what+" is bounded independently of the file content (opt alloc-bound "+x.fc.Opts["alloc-bound"]+")", st, Le(n, IntLitStr(x.fc.Opts["alloc-bound"])))
 }
